@@ -191,6 +191,10 @@ Definition sys_drop (s : sys) (ch : nat) : sys :=
 
 Definition sys_init (nc nch : nat) : sys := mkSys (repeat cond_init nc) (repeat chan_new nch).
 
+(* is the receiver of channel ch notified (the flag its next poll consumes) *)
+Definition notif (s : sys) (ch : nat) : bool :=
+  match nth_error (chans s) ch with Some x => notified x | None => false end.
+
 (* ------------------------------------- layer A: the condition driven directly *)
 (* [held]: which original senders the caller still owns (caller state, not
    part of the channel) *)
